@@ -682,6 +682,31 @@ func (s *Store) Eval(t *Term, env []uint64) uint64 {
 	return s.eval(t, env)
 }
 
+// EvalCut evaluates t with the given sub-terms forced to the given values.
+func (s *Store) EvalCut(t *Term, env []uint64, cuts []*Term, vals []uint64) uint64 {
+	s.evGen++
+	if s.evGen == 0 {
+		for i := range s.evTag {
+			s.evTag[i] = 0
+		}
+		s.evGen = 1
+	}
+	if len(s.evTag) < len(s.terms) {
+		n := len(s.terms) + 1024
+		nt := make([]uint32, n)
+		copy(nt, s.evTag)
+		s.evTag = nt
+		nv := make([]uint64, n)
+		copy(nv, s.evVal)
+		s.evVal = nv
+	}
+	for i, c := range cuts {
+		s.evTag[c.id] = s.evGen
+		s.evVal[c.id] = vals[i] & mask(c.w)
+	}
+	return s.eval(t, env)
+}
+
 func (s *Store) eval(t *Term, env []uint64) uint64 {
 	switch t.op {
 	case OpConst:
